@@ -299,6 +299,12 @@ class HyperWorld(World):
                     self.Escale = max(abs(KE0) + abs(W0), 1e-300)
                     if self.Escale < 1e-10:
                         raise Discard("the body is at rest in its reference state: nothing to conserve")
+                if self.cfg["stress"] == "quadrature" and self.conserving:
+                    # the adaptive rule promises its tolerance only while it can still refine (documented cap: 33 points)
+                    npts = getattr(sim, "_HyperElastic__nPts_e", None)
+                    if npts is not None and np.size(npts) and int(np.max(npts)) >= 33:
+                        self.conserving = False
+                        ctx.probe("adaptive_rule_hit_its_cap")
                 E, KE, W = self._energy()
                 if not np.isfinite(E):
                     raise Violation("energy-not-finite", "KE + W is NaN/Inf after a converged step")
